@@ -11,8 +11,8 @@ from harness import pipe
 FUNCTIONS = ['bycycle.features.shape.compute_shape_features', 'bycycle.features.shape.compute_durations',
              'bycycle.features.shape.compute_extrema_voltage', 'bycycle.features.shape.compute_symmetry',
              'bycycle.features.shape.compute_band_amp', 'bycycle.utils.dataframes.rename_extrema_df']
-BOUNDS = {'quick': "e2e: padded length 8 (pad off/on), both centrings; cut: N <= 8 with 1..2 cycles and N = 9 with 3 cycles (every placement of cyclepoints obeying the C01 invariant), both centrings",
-          'thorough': 'e2e: padded length <= 9; cut: N <= 10 with 1..3 cycles'}
+BOUNDS = {'quick': "e2e: padded length 8 (pad off/on), both centrings; cut: N <= 8 with 1..2 cycles and N = 9 with 3 cycles (every placement of cyclepoints obeying the C01 invariant), both centrings; int16 / uint8 / int64 signals (every value of the type) with N = 4, 1 cycle; long: compute_durations / compute_extrema_voltage / compute_symmetry on 1..2 cycles whose sample positions are unbounded integers (float and int16 signals)",
+          'thorough': 'e2e: padded length <= 9; cut: N <= 10 with 1..3 cycles; long: 1..3 cycles'}
 OUTSIDE = 'longer signals; IEEE rounding of differences / means / ratios'
 STUBS = ['filter_signal / amp_by_time: arbitrary outputs of len(sig)', "cut mode: compute_cyclepoints -> arbitrary table under the C01 invariant"]
 ASSUMPTIONS = ['cut mode assumes the C01 postcondition for compute_cyclepoints (proved by check C01)']
@@ -29,10 +29,26 @@ def configs(tier):
         for n in ns:
             for centre in ('peak', 'trough'):
                 out.append({'mode': 'cut', 'n': n, 'rows': rows, 'centre': centre})
+    # recordings stored as machine integers (raw ADC counts): voltage differences must not wrap around
+    for dt in ('int16', 'uint8', 'int'):
+        for centre in ('peak', 'trough'):
+            out.append({'mode': 'cut', 'n': 4, 'rows': 1, 'centre': centre, 'dtype': dt})
+            if not q:
+                out.append({'mode': 'cut', 'n': 6, 'rows': 2, 'centre': centre, 'dtype': dt})
+    # the band-amplitude filter length is the function's own n_cycles, whatever the extrema search is given
+    for centre in ('peak', 'trough'):
+        for ncyc in ((4, 5), (3, 7)):
+            out.append({'mode': 'cut', 'n': 4, 'rows': 1, 'centre': centre, 'ncyc': list(ncyc)})
+    # cycles of ANY length: sample positions are unbounded integers, the signal is known only at the extrema
+    for rows in ((1, 2) if q else (1, 2, 3)):
+        for dt in ('float', 'int16'):
+            out.append({'mode': 'long', 'rows': rows, 'dtype': dt, 'n': 0, 'centre': 'peak'})
     return out
 
 
 def cost(cfg):
+    if cfg['mode'] == 'long':
+        return 5
     if cfg['mode'] == 'e2e':
         return 4.0 ** (cfg['n'] + 2 * ((cfg['L'] + 1) // 2))
     return 3.0 ** cfg['n'] * cfg['rows']
@@ -85,12 +101,106 @@ FEATS = ['period', 'time_peak', 'time_trough', 'volt_peak', 'volt_trough', 'time
          'volt_decay', 'volt_rise', 'volt_amp', 'time_rdsym', 'time_ptsym', 'band_amp']
 
 
+def run_long(ctx, cfg):
+    """compute_durations / compute_extrema_voltage / compute_symmetry on a table whose sample positions are
+    unbounded integers (C01 invariant only) and a signal known only at the extrema."""
+    pd = ctx.pd
+    sh = ctx.mod('bycycle.features.shape')
+    rows, dt = cfg['rows'], cfg['dtype']
+    k = 2 * rows + 1
+    ps = [ctx.integer('e%d' % j) for j in range(k)]
+    ctx.assume(ps[0] >= 0)
+    for j in range(1, k):
+        ctx.assume(ps[j] > ps[j - 1])
+    ctx.assume(ps[-1] <= 40_000_000)          # only so that a witness can be materialised as a real array
+    lm = ctx.integer('lm')
+    ctx.assume(lm >= 0)
+    ctx.assume(lm <= ps[0])
+    mids = [lm]
+    for j in range(k - 1):
+        m = ctx.integer('m%d' % j)
+        ctx.assume(m >= ps[j])
+        ctx.assume(m <= ps[j + 1])
+        mids.append(m)
+    if dt == 'float':
+        vs = [ctx.real('v%d' % j) for j in range(k)]
+    else:
+        lo, hi = ctx.INT_RANGE[dt]
+        vs = [ctx.integer('v%d' % j) for j in range(k)]
+        for v in vs:
+            ctx.assume(v >= lo)
+            ctx.assume(v <= hi)
+    sig = ctx.lazy_signal(list(zip(ps, vs)), dtype=float if dt == 'float' else dt)
+    table = {'sample_peak': [ps[2 * r + 1] for r in range(rows)],
+             'sample_last_zerox_decay': [mids[2 * r] for r in range(rows)],
+             'sample_zerox_decay': [mids[2 * r + 2] for r in range(rows)],
+             'sample_zerox_rise': [mids[2 * r + 1] for r in range(rows)],
+             'sample_last_trough': [ps[2 * r] for r in range(rows)],
+             'sample_next_trough': [ps[2 * r + 2] for r in range(rows)]}
+    df = pd.DataFrame({c: list(v) for c, v in table.items()})
+    try:
+        period, time_peak, time_trough = sh.compute_durations(df)
+        volt_peak, volt_trough = sh.compute_extrema_voltage(df, sig)
+        sym = sh.compute_symmetry(df, sig)
+        sym2 = sh.compute_symmetry(df, sig, period=period, time_peak=time_peak, time_trough=time_trough)
+    except Exception as e:
+        ctx.fail(exc_label(e))
+        return
+    got = {'period': ctx.tolist(period), 'time_peak': ctx.tolist(time_peak), 'time_trough': ctx.tolist(time_trough),
+           'volt_peak': ctx.tolist(volt_peak), 'volt_trough': ctx.tolist(volt_trough)}
+    for c in ('time_decay', 'time_rise', 'volt_decay', 'volt_rise', 'volt_amp', 'time_rdsym', 'time_ptsym'):
+        if not ctx.prove(c in sym and c in sym2, 'compute_symmetry returns ' + c):
+            return
+        got[c] = ctx.tolist(sym[c])
+        got[c + '#2'] = ctx.tolist(sym2[c])
+    ctx.obs('features', got)
+    obl = []
+    eq = ctx.eq
+    for c, v in got.items():
+        obl.append((len(v) == rows, 'one value per cycle (%s)' % c.split('#')[0]))
+    if not ctx.prove_all(obl):
+        return
+    obl = []
+    for i in range(rows):
+        last, cen, nxt = ps[2 * i], ps[2 * i + 1], ps[2 * i + 2]
+        lastmid, m1, m2 = mids[2 * i], mids[2 * i + 1], mids[2 * i + 2]
+        x_last, x_cen, x_nxt = vs[2 * i], vs[2 * i + 1], vs[2 * i + 2]
+        t_peak, t_trough = m2 - m1, m1 - lastmid
+        g = lambda c: got[c][i]    # noqa: E731
+        obl += [
+            (ctx.conj([g('period') == nxt - last, g('time_peak') == t_peak, g('time_trough') == t_trough]),
+             'period / time_peak / time_trough are the spans between side extrema / midpoints (cycles of any length)'),
+            (ctx.conj([eq(g('volt_peak'), x_cen), eq(g('volt_trough'), x_last)]), 'volt_peak / volt_trough are the signal at the extrema'),
+        ]
+        for sfx in ('', '#2'):
+            h = lambda c: got[c + sfx][i]    # noqa: E731
+            obl += [
+                (ctx.conj([h('time_rise') == cen - last, h('time_decay') == nxt - cen]), 'time_rise / time_decay are the flank durations (cycles of any length)'),
+                (ctx.conj([eq(h('volt_rise'), x_cen - x_last), eq(h('volt_decay'), x_cen - x_nxt)]),
+                 'volt_rise / volt_decay are the voltage changes along the flanks'),
+                (eq(h('volt_amp') * 2, (x_cen - x_last) + (x_cen - x_nxt)), 'volt_amp is the mean of volt_rise and volt_decay'),
+                (eq(h('time_rdsym'), (cen - last) / (nxt - last)), 'time_rdsym = time_rise / period (cycles of any length)'),
+            ]
+            # time_ptsym: NaN (0/0) when both midpoint spans are zero
+            both0 = ctx.conj([t_peak == 0, t_trough == 0])
+            if ctx.truth(both0):
+                obl.append((ctx.isnan(h('time_ptsym')), 'time_ptsym undefined when both spans are empty'))
+            else:
+                obl.append((eq(h('time_ptsym'), t_peak / (t_peak + t_trough)), 'time_ptsym = time_peak / (time_peak + time_trough) (cycles of any length)'))
+    ctx.prove_all(obl)
+
+
 def run(ctx, cfg):
+    if cfg['mode'] == 'long':
+        return run_long(ctx, cfg)
     np, pd = ctx.np, ctx.pd
     sh = ctx.mod('bycycle.features.shape')
     n, centre = cfg['n'], cfg['centre']
-    x = [ctx.real('x%d' % i) for i in range(n)]
-    sig = np.array(list(x), dtype=float)
+    if cfg.get('dtype'):
+        x, sig = ctx.int_signal(['x%d' % i for i in range(n)], cfg['dtype'])
+    else:
+        x = [ctx.real('x%d' % i) for i in range(n)]
+        sig = np.array(list(x), dtype=float)
     saved = sh.compute_cyclepoints
     if cfg['mode'] == 'e2e':
         L = cfg['L']
@@ -128,8 +238,14 @@ def run(ctx, cfg):
             return pd.DataFrame({c: list(v) for c, v in table.items()})
         sh.compute_cyclepoints = fake_cp
         fek = None
+    extra = {}
+    band_ncyc = 3
+    if cfg.get('ncyc'):
+        band_ncyc, fek_n = cfg['ncyc']
+        extra = {'n_cycles': band_ncyc}
+        fek = {'filter_kwargs': {'n_cycles': fek_n}}
     try:
-        df = sh.compute_shape_features(sig, 1000.0, (8.0, 12.0), center_extrema=centre, find_extrema_kwargs=fek)
+        df = sh.compute_shape_features(sig, 1000.0, (8.0, 12.0), center_extrema=centre, find_extrema_kwargs=fek, **extra)
     except Exception as e:
         if cfg['mode'] == 'cut':
             ctx.fail(exc_label(e))
@@ -155,6 +271,8 @@ def run(ctx, cfg):
     call = st.amp[0]
     sgn = 1 if centre == 'peak' else -1
     ctx.prove_all([(len(call['sig']) == n, 'amplitude computed on the analysed signal'),
-                   (call['fs'] == 1000.0 and tuple(call['f_range']) == (8.0, 12.0), 'amplitude computed with the caller\'s fs and f_range')] +
+                   (call['fs'] == 1000.0 and tuple(call['f_range']) == (8.0, 12.0), 'amplitude computed with the caller\'s fs and f_range'),
+                   (call['kw'] == {'n_cycles': band_ncyc} and call['remove_edges'] is False,
+                    'band amplitude computed with the function\'s own filter length n_cycles (got %r), edges kept' % (call['kw'],))] +
                   [(a == sgn * b, 'amplitude computed on the analysed signal (up to sign)') for a, b in zip(call['sig'], x)])
     ctx.prove_all(shape_obligations(ctx, cols, centre, x, call['out']))
